@@ -1,5 +1,7 @@
 package c10
 
+import "verif/kit"
+
 // Shadow of the DagModifier's position bookkeeping (writeStart / curWrOff / pending buffer /
 // cached reader), written from the code. It is NEVER used to accept or reject an
 // observation - the oracle is the admissible-state set in prop_test.go. It only decides,
@@ -20,7 +22,7 @@ package c10
 //   writeat-cursor        WriteAt at off != cursor moves the position of following Writes to
 //                         off+n but leaves the cursor used by Read/Seek at old+n; until the
 //                         next successful Seek with SeekStart/SeekEnd, or for the rest of
-//                         the case once a non-empty write was buffered in that state
+//                         the case once a write was buffered in that state
 //   stale-reader          Truncate or a Seek beyond EOF changes the DAG while a reader from
 //                         an earlier Read is cached; until the reader is dropped (next
 //                         write or flush of buffered data)
@@ -37,15 +39,25 @@ type shadow struct {
 	hangRisk bool
 	size    int64 // last observed Size()
 
+	open      map[string]bool // finding key -> listed as open
 	sameOp    string
 	permanent string
 	window    map[string]bool
 }
 
-func newShadow(size int64) *shadow { return &shadow{size: size, window: map[string]bool{}} }
+// newShadow: for a finding that is not (or no longer) listed as open the shadow follows the
+// repaired bookkeeping (fixes/C10-<key>.patch), so that it stays in step with the modifier
+// and the remaining open findings are still attributed correctly.
+func newShadow(size int64) *shadow {
+	s := &shadow{size: size, window: map[string]bool{}, open: map[string]bool{}}
+	for _, k := range []string{"seekend-sign", "seek-negative", "writeat-short-overlay", "read-then-write", "writeat-cursor", "stale-reader", "append-to-pb-leaf"} {
+		s.open[k] = kit.OpenFinding("C10", k)
+	}
+	return s
+}
 
 func (s *shadow) fire(key string) {
-	if s.permanent == "" {
+	if s.permanent == "" && s.open[key] {
 		s.permanent = key
 	}
 }
@@ -62,12 +74,11 @@ func (s *shadow) landing() int64 {
 // believing it continues at the cursor. If buffer position and cursor have come apart the
 // bytes are stored in the wrong place for good.
 func (s *shadow) misplaced(ln int64) {
-	if ln == 0 || s.landing() == s.cur {
-		return
-	}
+	// (an empty write counts too: the empty buffer at the wrong offset shows in Size()
+	// and makes the next flush zero-extend the file up to that offset)
 	if s.readAdv {
 		s.fire("read-then-write")
-	} else if s.window["writeat-cursor"] {
+	} else if s.landing() != s.cur && s.window["writeat-cursor"] {
 		s.fire("writeat-cursor")
 	}
 }
@@ -107,9 +118,24 @@ func (s *shadow) step(op Op, n int, ok bool, negTarget bool) {
 		s.misplaced(ln)
 		s.write(ln)
 	case "writeat":
-		old := s.cur
+		if !s.open["writeat-cursor"] {
+			// repaired WriteAt: continue the buffer, replace it, or flush and re-base;
+			// the cursor always moves to off
+			switch {
+			case s.buf && op.Off == s.ws+s.bufLen:
+			case s.buf && op.Off == s.ws && ln >= s.bufLen:
+				s.bufLen = 0
+			default:
+				s.sync()
+				s.ws = op.Off
+				s.readAdv = false
+			}
+			s.cur = op.Off
+			s.write(ln)
+			return
+		}
 		switch {
-		case op.Off == s.ws && s.buf:
+		case op.Off == s.ws && s.buf && (ln >= s.bufLen || s.open["writeat-short-overlay"]):
 			if ln >= s.bufLen {
 				s.bufLen = 0
 			} else if ln > 0 {
@@ -118,11 +144,11 @@ func (s *shadow) step(op Op, n int, ok bool, negTarget bool) {
 		case op.Off != s.cur:
 			s.sync()
 			s.ws = op.Off
+			s.readAdv = false // following writes chain from off
 		default:
 			s.misplaced(ln)
 		}
 		s.write(ln)
-		_ = old
 		if s.landing() != s.cur {
 			// the next Write lands at off+n, the cursor (Read, Seek(SeekCurrent)) is old+n
 			s.window["writeat-cursor"] = true
@@ -145,18 +171,25 @@ func (s *shadow) step(op Op, n int, ok bool, negTarget bool) {
 			no = s.cur + op.Off
 		case 2:
 			no = s.size - op.Off
+			if !s.open["seekend-sign"] {
+				no = s.size + op.Off
+			}
 		}
 		if !ok {
 			// the only error path after the whence check is the cached reader refusing
 			// the (negative) target - after the modifier has already moved its cursor
-			if s.reader && no < 0 {
+			if s.reader && no < 0 && s.open["seek-negative"] {
 				s.fire("seek-negative")
 				s.cur, s.ws = no, no
 			}
 			return
 		}
 		if no > s.size && s.reader {
-			s.window["stale-reader"] = true
+			if s.open["stale-reader"] {
+				s.window["stale-reader"] = true
+			} else {
+				s.reader = false
+			}
 		}
 		s.cur, s.ws = no, no
 		s.readAdv = false
@@ -174,9 +207,13 @@ func (s *shadow) step(op Op, n int, ok bool, negTarget bool) {
 	case "truncate":
 		s.sync()
 		if op.Off != s.size && s.reader {
-			s.window["stale-reader"] = true
-			if op.Off < s.size {
-				s.hangRisk = true
+			if s.open["stale-reader"] {
+				s.window["stale-reader"] = true
+				if op.Off < s.size {
+					s.hangRisk = true
+				}
+			} else {
+				s.reader = false
 			}
 		}
 	case "sync", "getnode":
